@@ -869,6 +869,29 @@ func (env *SpecEnv) special(name string, x *ast.CallExpr) (Value, bool) {
 		return env.quant(name, x), true
 	case "forallkey", "existskey":
 		return env.quantKey(name, x), true
+	case "hastype":
+		// hastype(x, T): the dynamic type of interface value x is T
+		iv, ok := env.eval(x.Args[0]).(IfV)
+		if !ok {
+			specErr("hastype: first argument must be an interface value")
+		}
+		t := env.resolveType(x.Args[1])
+		if t == nil {
+			specErr("hastype: unknown type %s", exprStr(x.Args[1]))
+		}
+		return Sc{Eq(iv.Tag, env.ex.P.typeTag(t)), tBool}, true
+	case "as":
+		// as(x, *T): the pointer held by interface value x (meaningful when hastype(x, *T))
+		iv, ok := env.eval(x.Args[0]).(IfV)
+		if !ok {
+			specErr("as: first argument must be an interface value")
+		}
+		t := env.resolveType(x.Args[1])
+		pt, isP := t.Underlying().(*types.Pointer)
+		if t == nil || !isP {
+			specErr("as: second argument must be a pointer type")
+		}
+		return PtrV{Loc{Kind: LHeap, Root: pt.Elem(), Ref: iv.Ref, Ty: pt.Elem()}, t}, true
 	case "local":
 		// local(x): the value of local variable x in the state being described (for hints in
 		// postconditions; contracts proper should not depend on locals)
